@@ -149,7 +149,7 @@ def run(pid, tier):
     a = leg_a(d, tier, 600 if quick else 3000)
     hyp = None
     if a["violated"]:
-        hyp = {"invariants": a["violated"], "note": "the code-shaped MODEL violates the property on a case of the matrix: "
+        hyp = {"invariants": sorted(set(a["violated"])), "note": "the code-shaped MODEL violates the property on a case of the matrix: "
                "a hypothesis about the code, decided by leg B"}
         log("[C04] leg A: %s" % json.dumps(hyp))
 
